@@ -12,7 +12,7 @@ import json, os, shutil, subprocess, sys, time
 from concurrent.futures import ThreadPoolExecutor
 
 VERIF = os.path.dirname(os.path.dirname(os.path.abspath(__file__)))
-WT = "/tmp/seed/verify"
+WT = os.environ.get("SEED_WT", "/tmp/seed/verify")
 sid, src = sys.argv[1], sys.argv[2]
 keep = "--keep" in sys.argv
 patch = os.path.join(src, "patch.diff")
@@ -41,7 +41,10 @@ confirmed = meta["suite_ok"] and rc1 == 1 and rc0 == 0
 meta["confirmed"] = confirmed
 print("suite:", meta["suite_with_change"], "| demo with change exit", rc1, "| without", rc0, "| confirmed:", confirmed)
 
-# run the checks against /repo with the change applied
+# run the checks against /repo with the change applied (one seed at a time: /repo is shared)
+import fcntl
+_lock = open("/tmp/seed/repo.lock", "w")
+fcntl.flock(_lock, fcntl.LOCK_EX)
 rc, out = sh("git -C /repo status --porcelain")
 if out.strip():
     print("/repo is not clean; refusing", out); sys.exit(2)
